@@ -20,8 +20,14 @@
 (*    80  stmt2, first line      <T12a>                                    *)
 (*    90  stmt2, second line     <T12b>                                    *)
 (*   100  <S13> comment row                                                *)
-(*   110  stmt3                  <T13>             1080 <D5> comment row   *)
-(*                                                 1090 var g5 = ... <TD5> *)
+(*   110  stmt3                  <T13>        1100 var h6 = func(...) {    *)
+(*                                            1110 <S61> comment row       *)
+(*                                            1120   stmt (b61)  <T61>     *)
+(*                                            1130   stmt (b62)            *)
+(*                                            1140 }   (a function literal *)
+(*                                                 at package level)       *)
+(*                                                 1180 <D5> comment row   *)
+(*                                                 1190 var g5 = ... <TD5> *)
 (*                                                 (last decl of file 2)   *)
 (*   120  <E1>  comment row (last thing in the block)                      *)
 (*   130  }                      <TD1>                                     *)
@@ -32,6 +38,10 @@
 (*   180  <S31> comment row                                                *)
 (*   190  stmt                   <T31>                                     *)
 (*   200  }                                                                *)
+(*                                                                         *)
+(* ld = TRUE: file 2 carries a `//line f2.go:N` directive in front of fn4 *)
+(* (generated code): diagnostics below it are *reported* at adjusted line  *)
+(* numbers, the scope of a comment is about the physical text.             *)
 (*                                                                         *)
 (* Every statement / declaration carries one diagnostic anchor of the      *)
 (* program kind (which code, anchored at the first token or later on the   *)
@@ -45,6 +55,10 @@
 (* (a comment trailing the last line of a top-level declaration is applied *)
 (* to the next declaration - pinned code, D7), OnceConsumesSlot (a         *)
 (* suppressed first use still uses up the once-per-file report),           *)
+(* OnlyFuncDeclBodies (a standalone comment inside a package-level function *)
+(* literal covers the rest of the declaration),                            *)
+(* LineDirAdjusted (below a //line directive a trailing comment is not     *)
+(* recognised as trailing: node lines are adjusted, comment lines are not),*)
 (* FuncLineCoversBody (a comment trailing the `func` line makes the        *)
 (* checker skip the whole body),                                           *)
 (* FileDocOnly (only a comment attached to the package clause is           *)
@@ -66,32 +80,33 @@ Mid(k) == k \notin {"IMM01", "IMM03"}           \* anchored after the first toke
 TwoLine(k) == k \in {"CTOR01", "CTOR03", "TONL01", "TONL02", "PKGO02"}   \* stmt2 has an anchor on its second line too
 Once(k) == k \in {"TONL01", "PKGO01"}
 
-Anchors(k) == {"a11", "a12", "a13", "a2", "a31", "b1", "b5"} \cup (IF TwoLine(k) THEN {"a12b"} ELSE {})
+Anchors(k) == {"a11", "a12", "a13", "a2", "a31", "b1", "b5", "b61", "b62"} \cup (IF TwoLine(k) THEN {"a12b"} ELSE {})
 
 Row(a) == CASE a = "a11" -> 60 [] a = "a12" -> 80 [] a = "a12b" -> 90 [] a = "a13" -> 110 [] a = "a2" -> 150
-            [] a = "a31" -> 190 [] a = "b1" -> 1060 [] a = "b5" -> 1090
+            [] a = "a31" -> 190 [] a = "b1" -> 1060 [] a = "b5" -> 1190 [] a = "b61" -> 1120 [] a = "b62" -> 1130
 PosOf(a, k) == Row(a) + (IF Mid(k) \/ a \in {"a2", "a12b", "b5"} THEN 5 ELSE 0)
 FileOf(p) == IF p >= 1000 THEN 2 ELSE 1
-DeclOf(a) == CASE a \in {"a11", "a12", "a12b", "a13"} -> 1 [] a = "a2" -> 2 [] a = "a31" -> 3 [] a = "b1" -> 4 [] a = "b5" -> 5
-StmtOf(a) == CASE a = "a11" -> 11 [] a \in {"a12", "a12b"} -> 12 [] a = "a13" -> 13 [] a = "a31" -> 31 [] a = "b1" -> 41 [] OTHER -> 0
+DeclOf(a) == CASE a \in {"a11", "a12", "a12b", "a13"} -> 1 [] a = "a2" -> 2 [] a = "a31" -> 3 [] a = "b1" -> 4 [] a = "b5" -> 5 [] a \in {"b61", "b62"} -> 6
+StmtOf(a) == CASE a = "a11" -> 11 [] a \in {"a12", "a12b"} -> 12 [] a = "a13" -> 13 [] a = "a31" -> 31 [] a = "b1" -> 41 [] a = "b61" -> 61 [] a = "b62" -> 62 [] OTHER -> 0
 
 \* source order of the anchors of a file (for the once-per-file rule)
 Before(a, b, k) == FileOf(PosOf(a, k)) = FileOf(PosOf(b, k)) /\ PosOf(a, k) < PosOf(b, k)
 
 Slots == {"none", "F0", "F0d", "G0", "D1", "D2", "D3", "D4", "D5", "S11", "S12", "S13", "S31", "S41", "E1",
-          "T11", "T12a", "T12b", "T13", "T31", "T41", "TD1", "TD2", "TD5", "TF1", "TF4"}
+          "T11", "T12a", "T12b", "T13", "T31", "T41", "TD1", "TD2", "TD5", "TF1", "TF4", "S61", "T61"}
 SlotPos(s) == CASE s = "F0" -> 10 [] s = "F0d" -> 5 [] s = "G0" -> 1010 [] s = "D1" -> 30 [] s = "D2" -> 140 [] s = "D3" -> 160
                 [] s = "S11" -> 50 [] s = "S12" -> 70 [] s = "S13" -> 100 [] s = "S31" -> 180 [] s = "E1" -> 120
                 [] s = "T11" -> 69 [] s = "T12a" -> 89 [] s = "T12b" -> 99 [] s = "T13" -> 119 [] s = "T31" -> 199
-                [] s = "TD1" -> 139 [] s = "TD2" -> 159 [] s = "D5" -> 1080 [] s = "TD5" -> 1099 [] s = "D4" -> 1030 [] s = "S41" -> 1050 [] s = "T41" -> 1069 [] s = "TF1" -> 49 [] s = "TF4" -> 1049 [] s = "none" -> 0
-Trailing(s) == s \in {"T11", "T12a", "T12b", "T13", "T31", "T41", "TD1", "TD2", "TD5", "TF1", "TF4"}
+                [] s = "TD1" -> 139 [] s = "TD2" -> 159 [] s = "D5" -> 1180 [] s = "TD5" -> 1199 [] s = "S61" -> 1110 [] s = "T61" -> 1129 [] s = "D4" -> 1030 [] s = "S41" -> 1050 [] s = "T41" -> 1069 [] s = "TF1" -> 49 [] s = "TF4" -> 1049 [] s = "none" -> 0
+Trailing(s) == s \in {"T11", "T12a", "T12b", "T13", "T31", "T41", "TD1", "TD2", "TD5", "TF1", "TF4", "T61"}
 
 \* structure
 DeclSpan(d) == CASE d = 1 -> <<40, 131>> [] d = 2 -> <<150, 158>> [] d = 3 -> <<170, 201>> [] d = 4 -> <<1040, 1071>>
-                 [] d = 5 -> <<1090, 1098>>
-StmtSpan(s) == CASE s = 11 -> <<60, 68>> [] s = 12 -> <<80, 98>> [] s = 13 -> <<110, 118>> [] s = 31 -> <<190, 198>> [] s = 41 -> <<1060, 1068>>
+                 [] d = 5 -> <<1190, 1198>> [] d = 6 -> <<1100, 1141>>
+Decls == 1..6
+StmtSpan(s) == CASE s = 11 -> <<60, 68>> [] s = 12 -> <<80, 98>> [] s = 13 -> <<110, 118>> [] s = 31 -> <<190, 198>> [] s = 41 -> <<1060, 1068>> [] s = 61 -> <<1120, 1128>> [] s = 62 -> <<1130, 1138>>
 PackagePos(f) == IF f = 1 THEN 20 ELSE 1020
-FileEnd(f) == IF f = 1 THEN 210 ELSE 1100
+FileEnd(f) == IF f = 1 THEN 210 ELSE 1200
 LineStart(p) == (p \div 10) * 10
 
 (* code lists: abstract tokens relative to the diagnostic code c of the kind *)
@@ -112,7 +127,7 @@ InScope(s, a, k) ==
   CASE s \in {"F0", "F0d"} -> FileOf(PosOf(a, k)) = 1
     [] s = "G0" -> FileOf(PosOf(a, k)) = 2
     [] s = "D1" -> DeclOf(a) = 1 [] s = "D2" -> DeclOf(a) = 2 [] s = "D3" -> DeclOf(a) = 3 [] s = "D4" -> DeclOf(a) = 4 [] s = "D5" -> DeclOf(a) = 5
-    [] s = "S11" -> StmtOf(a) = 11 [] s = "S12" -> StmtOf(a) = 12 [] s = "S13" -> StmtOf(a) = 13 [] s = "S31" -> StmtOf(a) = 31 [] s = "S41" -> StmtOf(a) = 41
+    [] s = "S11" -> StmtOf(a) = 11 [] s = "S12" -> StmtOf(a) = 12 [] s = "S13" -> StmtOf(a) = 13 [] s = "S31" -> StmtOf(a) = 31 [] s = "S41" -> StmtOf(a) = 41 [] s = "S61" -> StmtOf(a) = 61
     [] s = "E1" -> FALSE
     [] Trailing(s) -> LineStart(PosOf(a, k)) = LineStart(SlotPos(s))
     [] OTHER -> FALSE
@@ -129,40 +144,43 @@ L1 == IF Once(sc.kind)
 (***************************************************************************)
 InitScenario ==
   \/ /\ Mode = "all"
-     /\ \E k \in Kinds, s \in Slots, s2 \in {"none", "F0", "D1", "S12", "T13"}, l \in Lists :
+     /\ \E k \in Kinds, s \in Slots, s2 \in {"none", "F0", "D1", "S12", "T13"}, l \in Lists, ld \in BOOLEAN :
           /\ (s2 # "none" => s \notin {"none", s2})
-          /\ sc = [kind |-> k, slot |-> s, slot2 |-> s2, list |-> l]
+          /\ (ld => s # "none" /\ FileOf(SlotPos(s)) = 2 /\ s2 = "none")
+          /\ sc = [kind |-> k, slot |-> s, slot2 |-> s2, list |-> l, ld |-> ld]
   \/ /\ Mode = "quick"
-     /\ \E k \in Kinds, s \in Slots, s2 \in {"none", "D1", "S12"}, l \in {<<"exact">>, <<"cat">>, <<"othercat", "exact">>, <<"othercode">>} :
+     /\ \E k \in Kinds, s \in Slots, s2 \in {"none", "D1", "S12"}, l \in {<<"exact">>, <<"cat">>, <<"othercat", "exact">>, <<"othercode">>}, ld \in BOOLEAN :
           /\ (s2 # "none" => s \notin {"none", s2})
-          /\ sc = [kind |-> k, slot |-> s, slot2 |-> s2, list |-> l]
+          /\ (ld => s # "none" /\ FileOf(SlotPos(s)) = 2 /\ s2 = "none")
+          /\ sc = [kind |-> k, slot |-> s, slot2 |-> s2, list |-> l, ld |-> ld]
 
 Init == /\ InitScenario
         /\ ph = "classify" /\ cls = "?" /\ rng = <<0, 0>> /\ cls2 = "?" /\ rng2 = <<0, 0>> /\ out = {}
 
 \* the top-level declaration whose span contains p, or 0
-Enclosing(p) == IF \E d \in 1..5 : DeclSpan(d)[1] <= p /\ p <= DeclSpan(d)[2]
-                THEN CHOOSE d \in 1..5 : DeclSpan(d)[1] <= p /\ p <= DeclSpan(d)[2] ELSE 0
+Enclosing(p) == IF \E d \in Decls : DeclSpan(d)[1] <= p /\ p <= DeclSpan(d)[2]
+                THEN CHOOSE d \in Decls : DeclSpan(d)[1] <= p /\ p <= DeclSpan(d)[2] ELSE 0
 \* the first top-level declaration of the comment's file that starts after p, or 0
-NextDecl(p) == LET ds == {d \in 1..5 : FileOf(DeclSpan(d)[1]) = FileOf(p) /\ DeclSpan(d)[1] > p}
+NextDecl(p) == LET ds == {d \in Decls : FileOf(DeclSpan(d)[1]) = FileOf(p) /\ DeclSpan(d)[1] > p}
                IN IF ds = {} THEN 0 ELSE CHOOSE d \in ds : \A e \in ds : DeclSpan(d)[1] <= DeclSpan(e)[1]
 \* a declaration that ends on the comment's row, before the comment
-DeclEndingOnRow(p) == IF \E d \in 1..5 : LineStart(DeclSpan(d)[2]) = LineStart(p) /\ DeclSpan(d)[2] < p
-                      THEN CHOOSE d \in 1..5 : LineStart(DeclSpan(d)[2]) = LineStart(p) /\ DeclSpan(d)[2] < p ELSE 0
+DeclEndingOnRow(p) == IF \E d \in Decls : LineStart(DeclSpan(d)[2]) = LineStart(p) /\ DeclSpan(d)[2] < p
+                      THEN CHOOSE d \in Decls : LineStart(DeclSpan(d)[2]) = LineStart(p) /\ DeclSpan(d)[2] < p ELSE 0
 \* the first statement that starts after p inside declaration d, or 0
-NextStmt(p, d) == LET ss == {s \in {11, 12, 13, 31, 41} : StmtSpan(s)[1] > p /\ StmtSpan(s)[1] >= DeclSpan(d)[1] /\ StmtSpan(s)[2] <= DeclSpan(d)[2]}
+NextStmt(p, d) == LET ss == {s \in {11, 12, 13, 31, 41, 61, 62} : StmtSpan(s)[1] > p /\ StmtSpan(s)[1] >= DeclSpan(d)[1] /\ StmtSpan(s)[2] <= DeclSpan(d)[2]}
                   IN IF ss = {} THEN 0 ELSE CHOOSE s \in ss : \A t \in ss : StmtSpan(s)[1] <= StmtSpan(t)[1]
 \* code before the comment on its row, inside declaration d
-CodeOnRow(p, d) == LineStart(DeclSpan(d)[1]) = LineStart(p) \/ \E s \in {11, 12, 13, 31, 41} : StmtSpan(s)[1] < p /\ LineStart(StmtSpan(s)[1]) <= LineStart(p) /\ LineStart(p) <= LineStart(StmtSpan(s)[2])
+CodeOnRow(p, d) == LineStart(DeclSpan(d)[1]) = LineStart(p) \/ \E s \in {11, 12, 13, 31, 41, 61, 62} : StmtSpan(s)[1] < p /\ LineStart(StmtSpan(s)[1]) <= LineStart(p) /\ LineStart(p) <= LineStart(StmtSpan(s)[2])
                                                 /\ StmtSpan(s)[1] >= DeclSpan(d)[1] /\ StmtSpan(s)[2] <= DeclSpan(d)[2]
 
+LineDirBlind(p) == "LineDirAdjusted" \in Deviations /\ sc.ld /\ FileOf(p) = 2 /\ p > 1030
 ClsOf(slot) ==
   LET p == SlotPos(slot) IN
   IF slot = "none" THEN "nocomment"
   ELSE IF p < PackagePos(FileOf(p)) /\ ~("FileDocOnly" \in Deviations /\ slot = "F0d") THEN "file"
   ELSE IF p < PackagePos(FileOf(p)) THEN "lone"          \* (deviation) a detached comment before the clause only reaches the import block
-  ELSE IF Enclosing(p) # 0 THEN (IF CodeOnRow(p, Enclosing(p)) THEN "inline" ELSE "stmt")
-  ELSE IF DeclEndingOnRow(p) # 0 /\ ~("TrailAfterDecl" \in Deviations) THEN "inline"
+  ELSE IF Enclosing(p) # 0 THEN (IF CodeOnRow(p, Enclosing(p)) /\ ~LineDirBlind(p) THEN "inline" ELSE "stmt")
+  ELSE IF DeclEndingOnRow(p) # 0 /\ ~("TrailAfterDecl" \in Deviations) /\ ~LineDirBlind(p) THEN "inline"
   ELSE IF NextDecl(p) # 0 THEN "decl"
   ELSE "lone"
 
@@ -174,6 +192,7 @@ RangeOf(slot, c) ==
     [] c = "decl" -> <<p, DeclSpan(NextDecl(p))[2]>>
     [] c = "stmt" -> LET s == NextStmt(p, Enclosing(p)) IN
                      IF s = 0 THEN <<p, p>>
+                     ELSE IF "OnlyFuncDeclBodies" \in Deviations /\ Enclosing(p) = 6 THEN <<p, DeclSpan(6)[2]>>   \* statements are looked for in func declarations only
                      ELSE IF "RangeToNodeStart" \in Deviations THEN <<p, StmtSpan(s)[1]>>
                      ELSE <<p, StmtSpan(s)[2]>>
     [] c = "lone" -> <<p, p>>
@@ -227,7 +246,7 @@ NoMatchIdentity == (Done /\ ~ListMatches(sc.list, CodeOfKind(sc.kind))) =>
                       out = (IF Once(sc.kind) THEN {a \in Anchors(sc.kind) : \A b \in Anchors(sc.kind) : ~Before(b, a, sc.kind)} ELSE Anchors(sc.kind))
 
 EmitInv == (Emit /\ Done) =>
-   PrintT("@E " \o ToJson([kind |-> sc.kind, slot |-> sc.slot, slot2 |-> sc.slot2, list |-> sc.list, cls |-> cls, expect |-> out,
+   PrintT("@E " \o ToJson([kind |-> sc.kind, slot |-> sc.slot, slot2 |-> sc.slot2, list |-> sc.list, ld |-> sc.ld, cls |-> cls, expect |-> out,
                             base |-> (IF Once(sc.kind) THEN {a \in Anchors(sc.kind) : \A b \in Anchors(sc.kind) : ~Before(b, a, sc.kind)}
                                       ELSE Anchors(sc.kind))]))
 =============================================================================
